@@ -125,9 +125,18 @@ class MayRaise:
         rm = None
         prim = eng.repo.func(eng.read_primitive)
 
-        def length_of(t):
+        def length_of(t, depth=0):
             if t[0] == "call" and t[2] == ("attr", ("self",), prim.name) and len(t[3]) == 1 and is_const(t[3][0]) and isinstance(t[3][0][1], int):
                 return t[3][0][1]
+            if t[0] == "loopout" and len(t) == 3 and depth < 3 and getattr(self, "_cur_se", None) is not None:
+                # the value a `while True` loop leaves in a variable: what the variable holds at its breaks
+                info = self._cur_se.loop_info.get(t[1]) or {}
+                tst = info.get("test")
+                brk = [st_.env.get(t[2]) for k_, st_ in info.get("ends", []) if k_ == "break"]
+                if tst is not None and is_const(tst) and tst[1] and brk and all(x is not None for x in brk):
+                    ls = {length_of(x, depth + 1) if x[0] in ("call", "loopout") else self.cat.length(x) for x in brk}
+                    if len(ls) == 1 and isinstance(next(iter(ls)), int):
+                        return next(iter(ls))
             return None
 
         self.cat = CatContext(length_of)
@@ -135,6 +144,7 @@ class MayRaise:
         arglens: dict[tuple, list] = {}
         for f in self.repo.all_funcs():
             se = eng.symeval(f.qualname)
+            self._cur_se = se
             for e in se.effects:
                 if e.kind == "call" and e.term[2][0] == "attr" and e.term[2][1] == ("self",) and f.cls:
                     callee = self.repo.funcs.get(f"{f.module}.{f.cls}.{e.term[2][2]}")
@@ -145,6 +155,7 @@ class MayRaise:
                         if i < len(params):
                             n = self.cat.length(a)
                             arglens.setdefault((callee.qualname, params[i]), []).append(n if isinstance(n, int) else 0)
+        self._cur_se = None
         for key, vals in arglens.items():
             self._param_len[key] = min(vals)
         # pass 2: evaluate every constant-index subscript
@@ -375,8 +386,59 @@ class MayRaise:
                         if isinstance(r, ast.Return):
                             if not (isinstance(r.value, ast.Tuple) and len(r.value.elts) == n):
                                 ok = False
+                    if not ok:
+                        # not evident from the return statements: decide on the returned *terms* (a result kept in a loop-carried variable, a call's result passed on)
+                        ok = self._returns_arity(q, n, 0)
                 return ok and any_pkg
         return False
+
+    def _returns_arity(self, q: str, n: int, depth: int) -> bool:
+        """Every value the function can return is a sequence of exactly n items."""
+        from .symeval import is_const
+
+        if depth > 3:
+            return False
+        try:
+            se = self.eng.symeval(q)
+        except Exception:  # noqa: BLE001
+            return False
+        rets = [e for e in se.effects if e.kind == "return"]
+        if not rets or (se.final is not None and not se.final.dead):
+            return False  # may fall off the end (returns None)
+
+        def ok(t, excl_none=False, seen=frozenset()):
+            if t[0] == "tuple":
+                return len(t[1]) == n
+            if is_const(t):
+                return (isinstance(t[1], (tuple, list)) and len(t[1]) == n) or (excl_none and t[1] is None)
+            if t[0] == "ite":
+                return ok(t[2], excl_none, seen) and ok(t[3], excl_none, seen)
+            if t[0] == "call" and t[2][0] == "attr" and t[2][1] == ("self",):
+                fi = self.repo.funcs.get(f"{q.rsplit('.', 1)[0]}.{t[2][2]}")
+                return fi is not None and self._returns_arity(fi.qualname, n, depth + 1)
+            if t[0] == "call" and t[2][0] == "func":
+                return self._returns_arity(t[2][1], n, depth + 1)
+            if t[0] in ("loopout", "loop") and len(t) == 3:
+                lid, v = t[1], t[2]
+                if (lid, v) in seen:
+                    return True
+                info = se.loop_info.get(lid) or {}
+                test = info.get("test")
+                # `while v is None:` is left only with v not None
+                none_excluded = test is not None and test[0] == "cmp" and test[1] == "is" and test[2] == ("loop", lid, v) and test[3] == ("const", None) and not [k for k, _ in info.get("ends", []) if k == "break"]
+                vals = [st.env.get(v, ("loop", lid, v)) for _, st in info.get("ends", [])] + [st.env.get(v, ("loop", lid, v)) for st in info.get("tail_ends", [])]
+                if not info.get("tail_ends") and not info.get("body_dead") and info.get("body_end") is not None:
+                    vals.append(info["body_end"].get(v, ("loop", lid, v)))
+                pre = (info.get("pre") or {}).get(v)
+                if pre is None:
+                    return False
+                vals.append(pre)
+                return all(x == ("loop", lid, v) or ok(x, none_excluded or excl_none, seen | {(lid, v)}) for x in vals)
+            if t[0] == "maybe" and len(t) == 3:
+                return all(ok(x, excl_none, seen) for x in t[2])
+            return False
+
+        return all(ok(e.term) for e in rets)
 
     def _only_mappings(self, name: str) -> bool:
         """every binding of `name` visible here (in the function if it binds it, else at module level) is a dict display, dict
